@@ -34,7 +34,7 @@ def handle (line : String) : String :=
   | "ang" :: _ | "dih" :: _ | "tors" :: _ => handleAng ws
   | "sasa" :: _ => handleSasa ws
   | "qcp" :: _ | "qrot" :: _ => handleQcp ws
-  | "contacts" :: _ | "allpairs" :: _ | "moments" :: _ | "drid" :: _ | "wsums" :: _ => handleDescr ws
+  | "contacts" :: _ | "allpairs" :: _ | "moments" :: _ | "drid" :: _ | "wsums" :: _ | "rdf" :: _ => handleDescr ws
   | "hbtrip" :: _ | "bh" :: _ | "wn" :: _ | "ks" :: _ => handleHb ws
   | "dssp" :: _ => handleDssp ws
   | "fmtq" :: _ | "rstnames" :: _ | "txt" :: _ | "txtparse" :: _ => handleFmt ws
